@@ -1,6 +1,6 @@
 """Contracts for chartparse/chart.py."""
 from pyvc.contract import Contract, LoopSpec, Conc, Ghost
-from pyvc.values import INT, REAL, TD, STR, NONE, OptS, TupS, SeqS, UnionS, MapS, RecS
+from pyvc.values import INT, REAL, TD, STR, NONE, OptS, TupS, SeqS, UnionS, MapS, RecS, DictS
 from .c_sync import _cls, BIG
 
 C = "chartparse.chart:"
@@ -69,6 +69,57 @@ def register(reg, S):
                                     f"and forall(0, len({be}.events), lambda k: -10**17 <= micros({be}.events[k].timestamp) <= 10**17)")],
         raise_allowed={"ValueError": "True"},
         must_raise=[f"not {present}", f"{present} and len({T}.note_events) == 0",
-                    f"{present} and len({T}.note_events) > 0 and tag(start) != 1 and tag(end) != 1 and micros({e_time}) - micros({s_time}) <= 0"],
+                    f"{present} and len({T}.note_events) > 0 and tag(start) != 1 and tag(end) != 1 and micros({e_time}) - micros({s_time}) <= 0",
+                    # tick bounds: the interval between the tempo-map times of the two ticks
+                    f"{present} and len({T}.note_events) > 0 and implies(tag(start) == 1, alt(start, 1) >= 0) and implies(tag(end) == 1, alt(end, 1) >= 0) "
+                    f"and (tag(start) == 1 or tag(end) == 1) and micros({e_time}) - micros({s_time}) <= 0"],
         ensures=[("is-rate-over-resolved-interval", f"result == fn_result('chartparse.chart:Chart._notes_per_second', {T}.note_events, {s_time}, {e_time})")],
         props=["C16"]))
+
+    # ------------------------------------------------------------------ framing of sections
+    H = "chartparse.chart:Chart#_header_tag_regex_prog"
+    SECTIONS = DictS(STR, SeqS(STR))
+    S["Sections"] = SECTIONS
+    ghost = dict(g_k=INT, g_start=SeqS(INT), g_tag=SeqS(STR))
+    # a well-formed file: g_k sections; section j occupies lines[g_start[j] : g_start[j+1]]:
+    # header "[tag]", "{", body, "}"; no body line is a brace line; tags pairwise distinct
+    wf_file = [
+        ("sections-tile-the-file", "g_k >= 0 and len(g_start) == g_k + 1 and len(g_tag) == g_k and g_start[0] == 0 and g_start[g_k] == len(lines)"),
+        ("section-frame", f"forall(0, g_k, lambda j: g_start[j] + 3 <= g_start[j + 1] and rxm('{H}', lines[g_start[j]]) and rxg('{H}', 1, lines[g_start[j]]) == g_tag[j] "
+                          "and lines[g_start[j] + 1] == '{' and lines[g_start[j + 1] - 1] == '}')"),
+        ("no-brace-line-inside-a-body", "forall(0, g_k, lambda j: forall(g_start[j] + 2, g_start[j + 1] - 1, lambda i: lines[i] != '{' and lines[i] != '}'))"),
+        ("tags-distinct", "forall(0, g_k, lambda a: forall(a + 1, g_k, lambda b: g_tag[a] != g_tag[b]))"),
+    ]
+    S["wf_file"] = wf_file
+
+    def framed(d, upto):
+        return [
+            ("one-entry-per-section-in-file-order", f"len(keys_of({d})) == {upto} and forall(0, {upto}, lambda j: keys_of({d})[j] == g_tag[j])"),
+            ("each-section-gets-exactly-its-body", f"forall(0, {upto}, lambda j: g_tag[j] in {d} and len({d}[g_tag[j]]) == g_start[j + 1] - 1 - (g_start[j] + 2) "
+                                                   f"and forall(0, len({d}[g_tag[j]]), lambda i: {d}[g_tag[j]][i] == lines[g_start[j] + 2 + i]))"),
+            ("no-other-key", f"forall_keys({d}, lambda key: exists(0, {upto}, lambda j: key == g_tag[j]))"),
+        ]
+    S["framed"] = framed
+    reg.add(Contract(
+        C + "Chart._partition_lines_by_data_section",
+        params=dict(cls=_cls(C + "Chart"), lines=SeqS(STR)), result=SECTIONS,
+        ghost_params=ghost, requires=wf_file,
+        ensures=framed("result", "g_k"),
+        ghost_init="g_s = 0",
+        ghosts=[Ghost("curr_last_line_index = i - 1", "g_s = g_s + 1")],
+        loops={0: LoopSpec(invariants=[
+            ("section-cursor", "0 <= g_s and g_s <= g_k and g_start[g_s] <= _it and implies(g_s < g_k, _it < g_start[g_s + 1]) and implies(g_s == g_k, _it == len(lines))"),
+            ("header-pending-iff-at-section-start", "iff(curr_header_tag is None, _it == g_start[g_s])"),
+            ("current-tag", "implies(curr_header_tag is not None, g_s < g_k and curr_header_tag == g_tag[g_s])"),
+            ("body-start-recorded", "implies(curr_header_tag is not None and _it >= g_start[g_s] + 2, curr_first_line_index == g_start[g_s] + 2)"),
+        ] + framed("d", "g_s"))},
+        locals={"d": SECTIONS, "curr_header_tag": OptS(STR), "curr_first_line_index": OptS(INT), "curr_last_line_index": OptS(INT)},
+        props=["C06", "C13"]))
+    # the same function on arbitrary lines: only the documented error can escape (C18)
+    reg.add(Contract(
+        C + "Chart._partition_lines_by_data_section", inst="safety", mode="safety",
+        params=dict(cls=_cls(C + "Chart"), lines=SeqS(STR)), result=SECTIONS,
+        raise_allowed={"RegexNotMatchError": "True"},
+        loops={0: LoopSpec(invariants=[("trivial", "True")])},
+        locals={"d": SECTIONS, "curr_header_tag": OptS(STR), "curr_first_line_index": OptS(INT), "curr_last_line_index": OptS(INT)},
+        props=["C18"]))
